@@ -152,7 +152,17 @@ def run_suite(args):
     src[m["line"] - 1] = m["new"]
     open(p, "w").write("\n".join(src) + "\n")
     xml = f"{WT}/j{k}.xml"
-    r = sh(f"cd {d} && env -u FIBERTREE_VERIF /venv/bin/python -B -m pytest -q -p no:cacheprovider --timeout=120 --continue-on-collection-errors --junitxml={xml} test", timeout=900)
+    if os.path.exists(xml):
+        os.remove(xml)
+    # a mutant may loop for ever: own process group, killed as a whole after 5 minutes (the suite takes 15 s)
+    import signal
+    pr = subprocess.Popen(f"cd {d} && exec env -u FIBERTREE_VERIF /venv/bin/python -B -m pytest -q -p no:cacheprovider --timeout=60 --continue-on-collection-errors --junitxml={xml} test",
+                          shell=True, stdout=subprocess.DEVNULL, stderr=subprocess.DEVNULL, start_new_session=True)
+    try:
+        pr.wait(timeout=300)
+    except subprocess.TimeoutExpired:
+        os.killpg(pr.pid, signal.SIGKILL)
+        pr.wait()
     ok = set()
     try:
         for tc in ET.parse(xml).getroot().iter("testcase"):
